@@ -1520,6 +1520,294 @@ void ext_families(vh::rng_t& rng)
     ext_ml(rng);
     ext_enet(rng);
 }
+
+// ---------------------------------------------------------------------------------------------------------------------
+// G. second extension stage `rest` (C06_Rest): model-tie lines + direct oracles for the clauses proved in coq/theories/C06_Rest.v
+//    lines:  FX name n | x | d = f(x) | g(x) | f(x+d)        polynomial benchmark functions on dyadic points: exact Taylor remainder
+//            SG n | model | x | d = f(x) | g(x) | f(x+d)     quadratic surrogate (src/tuner/surrogate.cpp)
+//            SF loss np | p rows | y | x = f | g             surrogate FIT objective (algebraic loss kernels)
+//            GG loss tsize | targets | x = f | g             gboost grads objective
+//            MQ n kd | E_0/E_1/.. | dg_0/.. | b_0/.. | x = f | g     maxquad: off-diagonal entries e(i<j), own diagonal terms and b_k
+//                                                            computed HERE with the formulas of the constructor; the model places them
+//            ME k i j = e ; MD k n i = dg ; MB k n i = b     single entries for the per-run interval lemmas
+//    FAIL clauses: taylor (five-point derivative of the quartic polynomial s -> f(x + s d) == g.d, fifth difference == 0),
+//                  psd-piece (maxquad: x'A_kmax x = x.g - f >= 0), forwarding (functional constraint == wrapped function)
+// ---------------------------------------------------------------------------------------------------------------------
+vec axpy(const vec& x, double s, const vec& d)
+{
+    vec z(x.size());
+    for (size_t i = 0; i < x.size(); ++i) z[i] = x[i] + s * d[i];
+    return z;
+}
+
+// s -> f(x + s d) is a polynomial of degree <= 4: its derivative at 0 is EXACTLY (8 (F(1) - F(-1)) - (F(2) - F(-2))) / 12 and its
+// fifth finite difference vanishes (no truncation error: the tolerance is rounding only)
+void check_taylor(const obj_t& o, const vec& x, const vec& d, const std::string& what)
+{
+    vec        g(x.size());
+    const auto f0 = o.eval(x, &g);
+    double     F[6]; // s = -2 .. 3
+    double     m = std::fabs(f0);
+    for (int k = 0; k < 6; ++k)
+    {
+        F[k] = (k == 2) ? f0 : o.eval(axpy(x, static_cast<double>(k - 2), d), nullptr);
+        m    = std::max(m, std::fabs(F[k]));
+    }
+    g_evals += 6;
+    double gd = 0, agd = 0;
+    for (size_t i = 0; i < x.size(); ++i)
+    {
+        gd += g[i] * d[i];
+        agd += std::fabs(g[i] * d[i]);
+    }
+    const auto der = (8.0 * (F[3] - F[1]) - (F[4] - F[0])) / 12.0;
+    const auto d5  = F[5] - 5.0 * F[4] + 10.0 * F[3] - 10.0 * F[2] + 5.0 * F[1] - F[0];
+    const auto tol = 4096 * EPS * (m + agd + 1.0) * (1.0 + static_cast<double>(x.size()));
+    ++g_grad_checks;
+    if (!(std::fabs(der - gd) <= tol))
+        fail("taylor", o.name, o.family, what + ": five-point derivative=" + vh::hexf(der) + " g.d=" + vh::hexf(gd) + " tol=" + vh::hexf(tol) + " x=[" + fl(x) + "] d=[" + fl(d) + "] g=[" + fl(g) + "]");
+    else if (!(std::fabs(d5) <= 8 * tol))
+        fail("taylor", o.name, o.family, what + ": fifth difference=" + vh::hexf(d5) + " (degree > 4?) tol=" + vh::hexf(8 * tol) + " x=[" + fl(x) + "] d=[" + fl(d) + "]");
+}
+
+void rest_functions(vh::rng_t& rng)
+{
+    const char* ids[] = {"schumer-steiglitz", "styblinski-tang", "qing", "axis-ellipsoid", "chung-reynolds", "sargan", "zakharov", "rosenbrock", "dixon-price", "powell"};
+    const std::vector<tensor_size_t> dims = g_thorough ? std::vector<tensor_size_t>{1, 2, 3, 4, 5, 6, 7, 8, 12} : std::vector<tensor_size_t>{1, 2, 3, 4, 5, 8};
+    const int reps = g_thorough ? 12 : 4;
+    for (const char* id : ids)
+        for (const auto dreq : dims)
+        {
+            const auto f = function_t::all().get(id)->make(dreq, 1);
+            if (!f) continue;
+            const auto n = static_cast<int>(f->size());
+            if (n != dreq && !(std::string(id) == "powell" && dreq == 1) && !(std::string(id) == "rosenbrock" && dreq == 1)) continue; // sizes are rounded: once per size
+            auto o = wrap_function(*f, std::string("fn:") + id, std::string("fn:") + id + "[" + std::to_string(n) + "D](rest)", true);
+            for (int r = 0; r < reps; ++r)
+            {
+                // dyadic points: x, d on the grid 1/8 so that x + s d (s = -2..3) and the polynomial values are (nearly) exact
+                auto x = dyadic_point(rng, n, (r % 2) ? 2.0 : 1.0, 0.125);
+                auto d = dyadic_point(rng, n, 1.0, 0.125);
+                if (r % 4 == 3) // a single coordinate direction, the LAST / FIRST index now and then (boundary terms of the chains)
+                {
+                    std::fill(d.begin(), d.end(), 0.0);
+                    d[(r % 8 == 3) ? static_cast<size_t>(n - 1) : static_cast<size_t>(rng.range(0, n - 1))] = (rng.range(0, 1) ? 1.0 : -0.5);
+                }
+                check_taylor(o, x, d, id);
+                vec        g(x.size());
+                const auto fx = o.eval(x, &g);
+                const auto fz = o.eval(axpy(x, 1.0, d), nullptr);
+                if (n <= 8) out(std::string("FX ") + id + " " + std::to_string(n) + " | " + fl(x) + " | " + fl(d) + " = " + vh::hexf(fx) + " | " + fl(g) + " | " + vh::hexf(fz));
+            }
+        }
+}
+
+void rest_surrogate(vh::rng_t& rng)
+{
+    for (int rep = 0; rep < (g_thorough ? 40 : 12); ++rep)
+    {
+        const auto np = static_cast<tensor_size_t>(1 + rep % 4);
+        const auto nm = (np + 1) * (np + 2) / 2;
+        vector_t   model(nm);
+        for (tensor_size_t i = 0; i < nm; ++i) model(i) = std::round((4.0 * rng.unit() - 2.0) * 16.0) / 16.0;
+        const auto fq = quadratic_surrogate_t{model};
+        auto       o  = wrap_function(fq, "ml:surrogate(rest)", "ml:surrogate(model=[" + fl(tovec(model)) + "])(rest)", true);
+        const auto x  = dyadic_point(rng, o.n, 2.0, 0.125);
+        const auto d  = dyadic_point(rng, o.n, 2.0, 0.125);
+        check_taylor(o, x, d, "surrogate");
+        vec        g(x.size());
+        const auto fx = o.eval(x, &g), fz = o.eval(axpy(x, 1.0, d), nullptr);
+        out("SG " + std::to_string(o.n) + " | " + fl(tovec(model)) + " | " + fl(x) + " | " + fl(d) + " = " + vh::hexf(fx) + " | " + fl(g) + " | " + vh::hexf(fz));
+    }
+    const char* lids[] = {"mse", "mae", "pinball", "s-hinge", "s-squared-hinge"};
+    for (const char* id : lids)
+    {
+        const auto loss = loss_t::all().get(id);
+        if (!loss) continue;
+        const auto kind = kind_of(id);
+        for (int rep = 0; rep < (g_thorough ? 8 : 3); ++rep)
+        {
+            const auto np = static_cast<tensor_size_t>(1 + rep % 3);
+            const auto ns = static_cast<tensor_size_t>(rng.range(2, 7));
+            tensor2d_t p(ns, np);
+            tensor1d_t y(ns);
+            std::vector<vec> prow;
+            for (tensor_size_t i = 0; i < ns; ++i)
+            {
+                vec row(static_cast<size_t>(np));
+                for (tensor_size_t j = 0; j < np; ++j) row[static_cast<size_t>(j)] = p(i, j) = std::round((2.0 * rng.unit() - 1.0) * 8.0) / 8.0;
+                prow.push_back(row);
+                y(i) = (kind == lkind::regression) ? std::round((4.0 * rng.unit() - 2.0) * 8.0) / 8.0 : (rng.range(0, 1) ? 1.0 : -1.0);
+            }
+            const auto ff = quadratic_surrogate_fit_t{*loss, p, y};
+            auto       o  = wrap_function(ff, std::string("ml:surrogate-fit(") + id + ")(rest)", "ml:surrogate-fit(rest)", true);
+            const auto x  = dyadic_point(rng, o.n, 1.0, 0.125);
+            vec        g(x.size());
+            const auto fx = o.eval(x, &g);
+            out(std::string("SF ") + id + " " + std::to_string(np) + " | " + frows(prow) + " | " + fl(tovec(y)) + " | " + fl(x) + " = " + vh::hexf(fx) + " | " + fl(g));
+        }
+    }
+}
+
+void rest_grads(vh::rng_t& rng)
+{
+    const char* ids[] = {"mse", "mae", "pinball", "s-hinge", "m-hinge", "s-squared-hinge"};
+    for (const char* id : ids)
+    {
+        const auto loss = loss_t::all().get(id);
+        if (!loss) continue;
+        for (int rep = 0; rep < (g_thorough ? 6 : 2); ++rep)
+        {
+            auto       d   = make_data(rng, kind_of(id), 1U);
+            const auto all = arange(0, d.n);
+            auto       it  = targets_iterator_t{*d.dataset, all};
+            it.batch(static_cast<tensor_size_t>(rng.range(2, 9)));
+            it.scaling(scaling_type::none);
+            const auto fg = gboost::grads_function_t{it, *loss};
+            auto       og = wrap_function(fg, std::string("ml:gboost-grads(") + id + ")(rest)", "ml:gboost-grads(rest)", false);
+            const auto x  = dyadic_point(rng, og.n, 2.0, 0.125);
+            vec        g(x.size());
+            const auto fx = og.eval(x, &g);
+            out(std::string("GG ") + id + " " + std::to_string(d.tsize) + " | " + frows(d.targets) + " | " + fl(x) + " = " + vh::hexf(fx) + " | " + fl(g));
+        }
+    }
+}
+
+// maxquad: the entries of the constructor recomputed with its formulas (si = i + 1, sj = j + 1, sk = k + 1)
+void rest_maxquad(vh::rng_t& rng)
+{
+    const tensor_size_t kd = 5; // function_maxquad_t(dims, kdims = 5)
+    for (const tensor_size_t n : (g_thorough ? std::vector<tensor_size_t>{1, 2, 3, 4, 5, 6} : std::vector<tensor_size_t>{1, 2, 3, 5}))
+    {
+        const auto f = function_t::all().get("maxquad")->make(n, 1);
+        auto       o = wrap_function(*f, "fn:maxquad(rest)", "fn:maxquad[" + std::to_string(n) + "D](rest)", true);
+        std::string E, DG, Bs;
+        std::vector<std::vector<vec>> Afull;
+        std::vector<vec>              Bfull;
+        for (tensor_size_t k = 0; k < kd; ++k)
+        {
+            const auto       sk = static_cast<double>(k + 1);
+            std::vector<vec> rows;
+            vec              dg(static_cast<size_t>(n)), b(static_cast<size_t>(n));
+            for (tensor_size_t i = 0; i < n; ++i)
+            {
+                const auto si = static_cast<double>(i + 1);
+                vec        row(static_cast<size_t>(n), 0.0);
+                for (tensor_size_t j = i + 1; j < n; ++j)
+                {
+                    const auto sj = static_cast<double>(j + 1);
+                    row[static_cast<size_t>(j)] = std::exp(si / sj) * std::cos(si * sj) * std::sin(sk);
+                    if (k < 3 && j < i + 3) out("ME " + std::to_string(k) + " " + std::to_string(i) + " " + std::to_string(j) + " = " + vh::hexf(row[static_cast<size_t>(j)]));
+                }
+                rows.push_back(row);
+                dg[static_cast<size_t>(i)] = si * std::fabs(std::sin(sk)) / static_cast<double>(n);
+                b[static_cast<size_t>(i)]  = std::exp(si / sk) * std::sin(si * sk);
+                if (k < 2 && i < 2)
+                {
+                    out("MD " + std::to_string(k) + " " + std::to_string(n) + " " + std::to_string(i) + " = " + vh::hexf(dg[static_cast<size_t>(i)]));
+                    out("MB " + std::to_string(k) + " " + std::to_string(n) + " " + std::to_string(i) + " = " + vh::hexf(b[static_cast<size_t>(i)]));
+                }
+            }
+            E += (k ? "/" : "") + frows(rows);
+            DG += (k ? "/" : "") + fl(dg);
+            Bs += (k ? "/" : "") + fl(b);
+            // the full piece (used ONLY to aim points at every piece below, not as an oracle)
+            std::vector<vec> full(static_cast<size_t>(n), vec(static_cast<size_t>(n), 0.0));
+            for (size_t i = 0; i < full.size(); ++i)
+            {
+                double sum = 0;
+                for (size_t j = 0; j < full.size(); ++j)
+                    if (i != j)
+                    {
+                        full[i][j] = (i < j) ? rows[i][j] : rows[j][i];
+                        sum += std::fabs(full[i][j]);
+                    }
+                full[i][i] = dg[i] + sum;
+            }
+            Afull.push_back(full);
+            Bfull.push_back(b);
+        }
+        // one point per piece at which THAT piece is the largest (a swapped / misplaced entry of piece k only shows where k is active)
+        const auto piece = [&](size_t k, const vec& x)
+        {
+            double v = 0;
+            for (size_t i = 0; i < x.size(); ++i)
+            {
+                double ax = 0;
+                for (size_t j = 0; j < x.size(); ++j) ax += Afull[k][i][j] * x[j];
+                v += x[i] * (ax - Bfull[k][i]);
+            }
+            return v;
+        };
+        for (size_t k = 0; k < Afull.size(); ++k)
+            for (int tries = 0, found = 0; tries < 400 && found < (g_thorough ? 3 : 1); ++tries)
+            {
+                const auto x = dyadic_point(rng, static_cast<int>(n), (tries % 2) ? 2.0 : 0.5, 0.0625);
+                bool best = true;
+                for (size_t l = 0; l < Afull.size() && best; ++l) best = l == k || piece(k, x) > piece(l, x) + 1e-6 * (1.0 + std::fabs(piece(l, x)));
+                if (!best) continue;
+                ++found;
+                vec        g(x.size());
+                const auto fx = o.eval(x, &g);
+                out("MQ " + std::to_string(n) + " " + std::to_string(kd) + " | " + E + " | " + DG + " | " + Bs + " | " + fl(x) + " = " + vh::hexf(fx) + " | " + fl(g));
+            }
+        for (int r = 0; r < (g_thorough ? 24 : 8); ++r)
+        {
+            const auto x = (r == 0) ? vec(static_cast<size_t>(n), 0.0) : ((r % 2) ? dyadic_point(rng, static_cast<int>(n), (r % 4 == 1) ? 4.0 : 0.5, 0.0625) : draw_point(rng, o, 10.0, nullptr));
+            vec        g(x.size());
+            const auto fx = o.eval(x, &g);
+            // x'A_kmax x = x.g(x) - f(x) must be non-negative (the active piece is positive semi-definite)
+            double xg = 0, axg = 0;
+            for (size_t i = 0; i < x.size(); ++i)
+            {
+                xg += x[i] * g[i];
+                axg += std::fabs(x[i] * g[i]);
+            }
+            ++g_value_checks;
+            if (!(xg - fx >= -256 * EPS * (axg + std::fabs(fx) + 1.0)))
+                fail("psd-piece", o.name, o.family, "x'A_kmax x = x.g - f = " + vh::hexf(xg - fx) + " < 0 x=[" + fl(x) + "] g=[" + fl(g) + "] f=" + vh::hexf(fx));
+            if (r % 2 || r == 0)
+                out("MQ " + std::to_string(n) + " " + std::to_string(kd) + " | " + E + " | " + DG + " | " + Bs + " | " + fl(x) + " = " + vh::hexf(fx) + " | " + fl(g));
+        }
+    }
+}
+
+// functional constraints forward value, gradient and flags of the wrapped function (bit for bit)
+void rest_functional(vh::rng_t& rng)
+{
+    const auto ids = function_t::all().ids();
+    for (int rep = 0; rep < (g_thorough ? 60 : 20); ++rep)
+    {
+        const auto id    = ids[static_cast<size_t>(rng.range(0, static_cast<int64_t>(ids.size()) - 1))];
+        const auto inner = function_t::all().get(id)->make(static_cast<tensor_size_t>(rng.range(1, 6)), 7);
+        if (!inner) continue;
+        const constraint_t c = (rep % 2) ? constraint_t{constraint::functional_equality_t{*inner}} : constraint_t{constraint::functional_inequality_t{*inner}};
+        const auto name = "cons:functional(" + id + ")[" + std::to_string(inner->size()) + "D](rest)";
+        if (::nano::convex(c) != inner->convex() || ::nano::smooth(c) != inner->smooth() || ::nano::strong_convexity(c) != inner->strong_convexity())
+            fail("forwarding", name, "cons:functional(rest)", "flags differ from the wrapped function's: convex=" + std::to_string(::nano::convex(c)) + "/" + std::to_string(inner->convex()) +
+                 " smooth=" + std::to_string(::nano::smooth(c)) + "/" + std::to_string(inner->smooth()) + " mu=" + vh::hexf(::nano::strong_convexity(c)) + "/" + vh::hexf(inner->strong_convexity()));
+        const auto n = static_cast<int>(inner->size());
+        const auto x = dyadic_point(rng, n, 2.0, 0.125);
+        vector_t   X(n), G1(n), G2(n);
+        for (int i = 0; i < n; ++i) X(i) = x[static_cast<size_t>(i)];
+        const auto f1 = ::nano::vgrad(c, X, G1);
+        const auto f2 = inner->vgrad(X, G2);
+        g_evals += 2;
+        ++g_value_checks;
+        bool same = (f1 == f2) || (std::isnan(f1) && std::isnan(f2));
+        for (int i = 0; i < n && same; ++i) same = G1(i) == G2(i) || (std::isnan(G1(i)) && std::isnan(G2(i)));
+        if (!same) fail("forwarding", name, "cons:functional(rest)", "value / gradient differ from the wrapped function's at x=[" + fl(x) + "]: " + vh::hexf(f1) + " vs " + vh::hexf(f2));
+    }
+}
+
+void rest_families(vh::rng_t& rng)
+{
+    rest_functions(rng);
+    rest_surrogate(rng);
+    rest_grads(rng);
+    rest_maxquad(rng);
+    rest_functional(rng);
+}
 } // namespace
 
 int main(int argc, char** argv)
@@ -1556,6 +1844,14 @@ int main(int argc, char** argv)
         seeder2.next();
         vh::rng_t rng2(seeder2.next());
         ext_families(rng2);
+    }
+    if (only.empty() || only == "rest")
+    {
+        // second extension (C06_Rest): own stream again
+        vh::rng_t seeder3(vh::env_seed() ^ 0x5E57C06C06ULL);
+        seeder3.next();
+        vh::rng_t rng3(seeder3.next());
+        rest_families(rng3);
     }
 
     std::string fam, clauses, keys;
